@@ -17,10 +17,10 @@ CHECKS = {
    text="Every (table, request) case of the sweeps P1/P2/H1/H2/X2 (thorough: P3, larger alphabets) is dispatched on a fresh real container under both routers with trace logging off and on; the observed outcome (panic?, status, invocation count and identity, Allow set) must equal the reference model's expected outcome for some maximal claiming root. P1 also goes through ServeHTTP for never-panics/at-most-once.",
    note="Trusted: reference model; RouterJSR311 best root unspecified when variable roots compete (any claiming root accepted, as the quantifier says)."),
  "C03": dict(engine=E1, sec="§6 C03", technique="exhaustive enumeration of tables x all registration-order permutations x requests; differential + specificity oracle",
-   text="For every 2- and 3-route table (after the property's exclusions) all permutations of the Add order and of the Route order are built as real containers and every request is dispatched on all of them: outcomes must be identical, and the invoked route must be a most-specific eligible route of a maximal claiming root.",
-   note="Partial specificity order of DESIGN.md §5; incomparable candidates are accepted either way."),
+   text="For every 2- and 3-route table (after the property's exclusions) all permutations of the Add order and of the Route order are built as real containers and every request is dispatched on all of them: outcomes must be identical, and the invoked route must be a most-specific eligible route of a maximal claiming root. Also: two routes declared through one reused RouteBuilder (P2r), and 2-3 services over colliding root paths in every Add order through ServeHTTP (S2/S3: status, route and Location must not depend on the order).",
+   note="Partial specificity order of DESIGN.md §5; incomparable candidates are accepted either way. Recorded finding F21 (through ServeHTTP, net/http's subtree redirect depends on whether a service with mux pattern / was added first) matched by a narrow signature."),
  "C04": dict(engine=E1, sec="§6 C04", technique="exhaustive enumeration of templates x matching paths; bindings compared with reference bindings and substituted back",
-   text="Every invocation reached in the path sweeps (both routers, also on containers whose router was switched beforehand) has its PathParameters() compared as a map with the reference bindings of the full template, and substituted back into the template to reproduce the request path.",
+   text="Every invocation reached in the path sweeps (both routers, also on containers whose router was switched beforehand and on containers that served under the other router before they were switched) has its PathParameters() compared as a map with the reference bindings of the full template, and substituted back into the template to reproduce the request path.",
    note="Templates that declare one variable name twice are skipped (binding undefined). Trusted: reference model."),
  "C14": dict(engine=E1, sec="§6 C14", technique="exhaustive differential enumeration: p vs p/ on the same container",
    text="For every table of the path/cross sweeps and every path p with a non-empty last segment, p, p/ and p again are dispatched on one real container; status, route, parameters and Allow set must be identical. CurlyRouter on all templates, RouterJSR311 on tables without tail wildcard.",
@@ -38,7 +38,7 @@ CHECKS = {
    text="Full product for 'Hello World' over 6 entry paths, container switch, route override, 9 Accept-Encoding values, pre-encoded / already-compressing writers, 7 outcome kinds (incl. 404/405 and recovered panics) and 3 providers, plus every payload x chunking on every entry; each case next to an identity twin: clause-by-clause oracle (labelled gzip/deflate, mentioned in Accept-Encoding, enabled for that request, strict decode to exactly the bytes written, never twice, nothing when the writer arrived encoded), ledger balanced.",
    note="Recorded finding F9 (ServeHTTP encodes despite route override false) matched narrowly: only correctly-encoded responses on exactly that configuration."),
  "C10": dict(engine="E1/E2 crash-point enumeration executed under E3's controlled scheduler (cmd/vcheck/c10.go)", sec="§6 C10", technique="exhaustive crash-point enumeration (panic positions x values x recovery x encoding x provider x entry x router) and request sequences, each run as a single controlled thread so a leaked lock is a deadlock verdict",
-   text="Every panic position of 10 chain shapes (filters before/after passing on, handler before/after partial output/after WriteEntity, the condition function, also on requests that fail routing) x panic value x recovery {off, default, custom} x encoding x provider under a ledger x entry x router; recover handler called exactly once with the value, nothing escapes (or the identical value with recovery off), complete decodable body, ledger balanced, and a probe set (request, Add, Remove) answered as by a fresh container; plus all sequences of 2 (3) requests over {normal, panic at p}.",
+   text="Every panic position of 10 chain shapes (filters before/after passing on, handler before/after partial output/after WriteEntity, the condition function, also on requests that fail routing) x panic value x recovery {off, default, custom} (plus the configuration-order cases: a handler registered while recovery is off, settings applied before Add / after Add / after a first request / toggled) x encoding x provider under a ledger x entry x router; recover handler called exactly once with the value, nothing escapes (or the identical value with recovery off), complete decodable body, ledger balanced, and a probe set (request, Add, Remove) answered as by a fresh container; plus all sequences of 2 (3) requests over {normal, panic at p}.",
    note="Default recover handler output compared up to the panic value line. Panics of plain http.Handlers are outside the statement."),
  "C15": dict(engine=E1, sec="§6 C15", technique="exhaustive enumeration of Response call sequences x fault position x short-write length over a counting, failing writer",
    text="Every sequence (optional first call of 11 kinds x status x value, then 0-2 (3) raw Writes) x pretty-print x Accept x {no coding with the k-th write accepting j bytes and failing, gzip coding fault-free}: StatusCode() equals the status the writer received, ContentLength() the bytes it accepted (or the decoded length under coding), the failing call returns the injected error.",
@@ -56,16 +56,16 @@ CHECKS = {
    text="E1: configurations x (URL x origin x requested method x requested-header list) against the grant rule, routable methods measured on a twin; preflights run no later filter or handler; actual requests get each header exactly once. E2: every sequence of <= 3 (4) preflights on one filter equals a fresh filter's answer. E3: concurrent preflights through one filter value, all schedules within the bound, vector-clock race detection on the filter's fields.",
    note="Method-name case is not decided by the statement: either answer accepted."),
  "C11": dict(engine=E2, sec="§6 C11", technique="breadth-first explicit-state search over registration histories; differential oracle against a fresh container built from the abstract state",
-   text="BFS over histories of Add/Remove/Route/RemoveRoute/Handle (depth 4 quick, 5 thorough) on root paths that collide in every way the mux registration can; each successor is the history replayed on a fresh real container; in every reached state ~90 probes through ServeHTTP and Dispatch must equal a container built directly from the abstract content; no operation may panic.",
+   text="BFS over histories of Add/Remove/Route/RemoveRoute/Handle (depth 4 quick, 5 thorough) on root paths that collide in every way the mux registration can, and over a second small universe (a service declared without Path(), dynamic route on the empty sub-path); each successor is the history replayed on a fresh real container; in every reached state ~90 probes through ServeHTTP and Dispatch must equal a container built directly from the abstract content; no operation may panic.",
    note="States merged on abstract content (plus probe signature when deviating). Duplicate roots are outside the quantifier; one duplicate Handle (rejected by net/http with a panic that the caller recovers, registering nothing) is part of the alphabet."),
  "C12": dict(engine=E3, sec="§6 C12", technique="stateless model checking of the real code under a controlled scheduler (iterative preemption bounding), vector-clock race detection, porcupine linearizability against the sequentially replayed container",
-   text="Serving threads against mutating threads (Add, Remove, Route, RemoveRoute, a condition that panics under the read lock, the OPTIONS filter walking services and routes, a route function that itself adds a service, Removes beside a plain handler), both routers x both entry points; every schedule up to the bound: no HB race on any struct field / package variable / slice element / map of the package, no panic, no deadlock, history linearizable w.r.t. registration states that existed during each request, requests to untouched services answered as on the initial container. Supplementary: same bodies free-running under -race on the uninstrumented package.",
+   text="Serving threads against mutating threads (Add, Remove, Route, RemoveRoute, a condition that panics under the read lock, the OPTIONS filter walking services and routes, a route function that itself adds a service, Removes beside a plain handler, Route against RemoveRoute, a route inheriting the service's media types added while a sibling is negotiated), both routers x both entry points; every schedule up to the bound: no HB race on any struct field / package variable / slice element / map of the package, no panic, no deadlock, history linearizable w.r.t. registration states that existed during each request, requests to untouched services answered as on the initial container. Supplementary: same bodies free-running under -race on the uninstrumented package.",
    note="Sequential consistency at synchronisation granularity; race detection over struct fields, package variables, slice elements and whole maps of the package under test (standard-library internals only in the sampled -race pass); shim RWMutex models writer preference; package-level variables are restored before every execution. Recorded finding F18 (ServeHTTP: mux consulted before a Remove, service list after it) matched by a relaxed-linearizability signature."),
  "C13": dict(engine=E3, sec="§6 C13", technique="stateless model checking under a controlled scheduler with an instrumenting ledger provider; blocked-in-provider detection by enabledness, not time",
-   text="All schedules (bound 2 quick / 3 thorough) of 2-3 concurrent requests of kinds {gzip, deflate, routing error, recovered panic, double Close, failing writer, gzip request body in chunks, corrupt gzip body} for providers bounded(0/1/2), bounded caches with unequal writer/reader capacities (2,1) (1,0) (1,2) and sync.Pool (hand-out owned by the explorer; provider construction runs under the scheduler as well) through both entry points: ledger clean (exclusive use, released exactly once), no thread ever disabled inside a provider operation, no deadlock, every response decodes to its own payload.",
+   text="All schedules (bound 2 quick / 3 thorough) of 2-3 concurrent requests of kinds {gzip, deflate, routing error, recovered panic, double Close, failing writer, gzip request body in chunks, corrupt gzip body, a handler that takes Content-Encoding off the response} for providers bounded(0/1/2), bounded caches with unequal writer/reader capacities (2,1) (1,0) (1,2) and sync.Pool (hand-out owned by the explorer; provider construction runs under the scheduler as well) through both entry points: ledger clean (exclusive use, released exactly once), no thread ever disabled inside a provider operation, no deadlock, every response decodes to its own payload.",
    note="compress/* trusted; shim Pool over-approximates sync.Pool (any pooled object or a new one)."),
  "C19": dict(engine=MIX, sec="§6 C19", technique="explicit-state search over request histories (differential vs fresh container, trace on/off); schedule exploration of concurrent request pairs with HB race detection",
-   text="E2: 5 configurations x 2 routers x 2 entry points x trace off/on: every sequence of length <= 2 (3) over a 24-request set and of length 3 (4) over its 14-request core (every history starting from the same restored package-level state), and the 1000-fold repetition of each request; last response (status, headers verbatim, decoded body with echoed parameters/attribute/selected route) equals the fresh-container response. E3: every pair (triples in thorough) concurrently, all schedules within the bound, same oracle, race detection; supplementary free-running -race pass.",
+   text="E2: 5 configurations x 2 routers x 2 entry points x trace off/on: every sequence of length <= 2 (3) over a 27-request set and of length 3 (4) over its 14-request core (every history starting from the same restored package-level state), and the 1000-fold repetition of each request; last response (status, headers verbatim, decoded body with echoed parameters/attribute/selected route) equals the fresh-container response. E3: every pair (triples in thorough) concurrently, all schedules within the bound, same oracle, race detection; supplementary free-running -race pass.",
    note="Differential; handlers additionally self-check that their own view does not change while they run (nested dispatch)."),
 }
 
